@@ -142,11 +142,27 @@ Theorem C04_combine_not_strictest_before_fix_refuted :
 Proof. exact combine_not_strictest_before_fix_refuted. Qed.
 Print Assumptions C04_combine_not_strictest_before_fix_refuted.
 
-(* wrapAny: still not total on the current tree (remaining genuine defect) *)
+(* wrapAny on HEAD 3a7bc1f: still not total — smallest remaining witness
+   t:[][]string ; t = [[]]+[[1]]   (finding concat-left-biased-type) *)
 Theorem C04_wrap_total_refuted :
   exists e n target, tc e = ONode n false /\ accepts target (node_type n) = true /\ wrap_any n target = None.
 Proof. exact wrap_total_refuted. Qed.
 Print Assumptions C04_wrap_total_refuted.
+
+(* every index / field / call / assertion / unary / variable / basic literal node has a rigid type … *)
+Theorem C04_tc_leaf_rigid : forall e t err,
+  annot_closed e = true -> tc e = ONode (NLeaf t) err -> rigid t = true /\ has_empty t = false.
+Proof. exact tc_leaf_rigid. Qed.
+Print Assumptions C04_tc_leaf_rigid.
+
+(* … so the former witnesses are type errors or accepted now *)
+Theorem C04_wrap_former_witnesses_ok :
+  check (CAssign (SArr SAny)) (ECall (SArr SNum)) = Reject /\
+  check (CAssign (SArr SAny)) (EIndex (EVar (SArr (SArr SNum))) ELitNum) = Reject /\
+  check CDecl (ESlice (EArr []) None None) = Accept (TArr true TAny) (TArr true TAny) /\
+  check CDecl (EBin OpPlus (EMap []) ELitNum) = Reject.
+Proof. exact wrap_former_witnesses_ok. Qed.
+Print Assumptions C04_wrap_former_witnesses_ok.
 
 (* the part that holds: values of rigid type (basic, any, variables, anything Fixed) *)
 Theorem C04_wrap_total_rigid_partial : forall t target,
@@ -202,8 +218,8 @@ Example C04_ex_fixed_empty_repeat :          (* x := [] * 3  is []any *)
 Proof. vm_compute. reflexivity. Qed.
 
 (* the remaining defect: the harness replays it on the implementation *)
-Example C04_ex_defect_call_result_panics :   (* func f:[]num … ; a:[]any ; a = f *)
-  check (CAssign (SArr SAny)) (ECall (SArr SNum)) = Crash.
+Example C04_ex_defect_concat_nested_empty_panics :   (* t:[][]string ; t = [[]]+[[1]] *)
+  check (CAssign (SArr (SArr SString))) (EBin OpPlus (EArr [EArr []]) (EArr [EArr [ELitNum]])) = Crash.
 Proof. vm_compute. reflexivity. Qed.
 
 Example C04_ex_combine_pure_nonvacuous :
